@@ -6,10 +6,13 @@
 namespace {
 
 using SF = cocls::shared_future<Counted>;
-enum Ctor { C_PROMISE_FN = 0, C_FUTURE_FN_PENDING, C_FUTURE_FN_READY, C_DEFAULT_GETPROMISE, C_PROMISE_FN_THREAD, C_FUTURE_FN_THREAD, C_NK };
-static const char *ctor_names[] = {"promfn", "futfn", "futready", "getpromise", "promfn-thread", "futfn-thread"};
-enum RKind { R_VAL = 0, R_EXC, R_DROP, R_NK };
-static const char *rk_names[] = {"val", "exc", "drop"};
+enum Ctor { C_PROMISE_FN = 0, C_FUTURE_FN_PENDING, C_FUTURE_FN_READY, C_DEFAULT_GETPROMISE, C_PROMISE_FN_THREAD, C_FUTURE_FN_THREAD, C_SHIFT_PENDING, C_SHIFT_THREAD, C_NK };
+// shift*: init_if_needed(), a copy is taken, then `original << function returning a pending future`; the handle everybody uses is the
+// copy made BEFORE the <<, the original dies right after it
+static const char *ctor_names[] = {"promfn", "futfn", "futready", "getpromise", "promfn-thread", "futfn-thread", "shift", "shift-thread"};
+// assign: the resolver move-assigns an empty promise over the one it holds; dtor: it lets the promise die. Both resolve to no-value.
+enum RKind { R_VAL = 0, R_EXC, R_DROP, R_ASSIGN, R_DTOR, R_NK };
+static const char *rk_names[] = {"val", "exc", "drop", "assign", "dtor"};
 enum Script { S_WAIT = 0, S_CORO, S_COPYDROP, S_DROP, S_POLL, S_CBFN, S_NK };
 static const char *sc_names[] = {"wait", "coro", "copydrop", "drop", "poll", "cbfn"};
 enum MainDrop { M_EARLY = 0, M_LATE };
@@ -110,6 +113,11 @@ static void scenario(int ctor, int rk, int nh, const int *scripts, int main_drop
                 switch (rk) {
                     case R_VAL: p(Counted(42)); break;
                     case R_EXC: p(std::make_exception_ptr(TestError(77))); break;
+                    case R_ASSIGN: p = cocls::promise<Counted>(); break;
+                    case R_DTOR: {
+                        cocls::promise<Counted> q(std::move(p));
+                        break;
+                    }
                     default: p(cocls::drop); break;
                 }
             };
@@ -135,16 +143,35 @@ static void scenario(int ctor, int rk, int nh, const int *scripts, int main_drop
                 sf.reset(new SF());
                 saved = sf->get_promise();
                 break;
+            case C_SHIFT_PENDING: {
+                SF orig;
+                orig.init_if_needed();
+                sf.reset(new SF(orig));
+                orig << [&] { return cocls::future<Counted>([&](cocls::promise<Counted> p) { saved = std::move(p); }); };
+                break;
+            }
+            case C_SHIFT_THREAD: {
+                SF orig;
+                orig.init_if_needed();
+                sf.reset(new SF(orig));
+                orig << [&] { return cocls::future<Counted>([&](cocls::promise<Counted> p) { early_rt = vstd::thread(resolve_now(std::move(p))); }); };
+                break;
+            }
         }
         vstd::thread ht[3], rt;
         for (int i = 0; i < nh; i++) ht[i] = vstd::thread(handle_thread, *sf, i, scripts[i]);
         if (main_drop == M_EARLY) sf.reset();
         rt = vstd::thread([&] {
             vrt_label("resolver");
-            if (ctor == C_FUTURE_FN_READY || ctor == C_PROMISE_FN_THREAD || ctor == C_FUTURE_FN_THREAD) return;
+            if (ctor == C_FUTURE_FN_READY || ctor == C_PROMISE_FN_THREAD || ctor == C_FUTURE_FN_THREAD || ctor == C_SHIFT_THREAD) return;
             switch (rk) {
                 case R_VAL: saved(Counted(42)); break;
                 case R_EXC: saved(std::make_exception_ptr(TestError(77))); break;
+                case R_ASSIGN: saved = cocls::promise<Counted>(); break;
+                case R_DTOR: {
+                    cocls::promise<Counted> q(std::move(saved));
+                    break;
+                }
                 default: saved(cocls::drop); break;
             }
         });
@@ -189,6 +216,7 @@ VRT_REGISTER(reg_sf) {
     for (int ctor = 0; ctor < C_NK; ctor++)
         for (int rk = 0; rk < R_NK; rk++)
             for (int md = 0; md < 2; md++) {
+                if (rk >= R_ASSIGN && ctor == C_FUTURE_FN_READY) continue;  // nothing left to resolve
                 // one handle thread: every script
                 for (int a = 0; a < S_NK; a++) {
                     std::string name = std::string("sf1_") + ctor_names[ctor] + "_" + rk_names[rk] + "_" + sc_names[a] + (md ? "_late" : "_early");
@@ -200,6 +228,7 @@ VRT_REGISTER(reg_sf) {
                 // two handle threads: pairs
                 for (int a = 0; a < S_NK; a++)
                     for (int b = a; b < S_NK; b++) {
+                        if (rk >= R_ASSIGN && !(a == S_WAIT && b == S_CORO)) continue;  // the no-value flavours: one pair is enough
                         std::string name = std::string("sf2_") + ctor_names[ctor] + "_" + rk_names[rk] + "_" + sc_names[a] + "-" + sc_names[b] + (md ? "_late" : "_early");
                         vrt::add(name, [=] {
                             int sc[3] = {a, b, 0};
